@@ -69,6 +69,8 @@ type hProfile struct {
 	// ttlBoost: percentage of index models that are a plain TTL index on a
 	// field that holds dates
 	ttlBoost int
+	// emptyPartial: index models may carry the empty partial filter {}
+	emptyPartial bool
 }
 
 var allNS = []string{"d1.c1", "d1.c1", "d1.c1", "d1.c2", "d2.c1"}
@@ -326,7 +328,11 @@ func (p *hProfile) genIndexModel(t *rapid.T, view *hView, ns string) bson.D {
 		} else {
 			pv = p.cfg.Scalar().Draw(t, "pval")
 		}
-		cond := rapid.SampledFrom([]string{"eq", "$gte", "$exists", "$lt", "empty"}).Draw(t, "pcond")
+		conds := []string{"eq", "$gte", "$exists", "$lt"}
+		if p.emptyPartial {
+			conds = append(conds, "empty")
+		}
+		cond := rapid.SampledFrom(conds).Draw(t, "pcond")
 		switch cond {
 		case "empty":
 			m = append(m, bson.E{Key: "partial", Value: bson.D{}})
